@@ -8,6 +8,7 @@ import (
 
 	"mosn.io/api"
 	v2 "mosn.io/mosn/pkg/config/v2"
+	mosnprotocol "mosn.io/mosn/pkg/protocol"
 	"mosn.io/mosn/pkg/types"
 	"mosn.io/mosn/pkg/upstream/cluster"
 	"mosn.io/pkg/variable"
@@ -73,3 +74,6 @@ func (s *scriptedHash) GenerateHash(ctx context.Context) uint64 { return s.h }
 func newHashRoute(h uint64) *hashRoute {
 	return &hashRoute{rule: &hashRule{pol: &hashPolicyHolder{hp: &scriptedHash{h: h}}}}
 }
+
+// protocolCommonHeader wraps a plain map as a protocol header map.
+func protocolCommonHeader(m map[string]string) api.HeaderMap { return mosnprotocol.CommonHeader(m) }
